@@ -95,7 +95,12 @@ func (evpool *Pool) PendingEvidence(maxBytes int64) ([]types.Evidence, int64) {
 	if evpool.Size() == 0 {
 		return nil, 0
 	}
-	evidence, size, err := evpool.listEvidence([]byte(baseKeyPending), maxBytes)
+	// a proposer may only offer what every node can verify now: the block of the evidence height exists
+	// and the evidence is not expired (pruning is lazy)
+	state := evpool.State()
+	evidence, size, err := evpool.listEvidence([]byte(baseKeyPending), maxBytes, func(ev types.Evidence) bool {
+		return ev.Height() > state.LastBlockHeight || evpool.isExpired(ev.Height(), ev.Time())
+	})
 	if err != nil {
 		evpool.logger.Error("Unable to retrieve pending evidence", "err", err)
 	}
@@ -248,7 +253,8 @@ func (evpool *Pool) removePendingEvidence(evidence types.Evidence) {
 
 // listEvidence retrieves lists evidence from oldest to newest within maxBytes.
 // If maxBytes is -1, there's no cap on the size of returned evidence.
-func (evpool *Pool) listEvidence(prefixKey []byte, maxBytes int64) ([]types.Evidence, int64, error) {
+// Evidence for which an optional skip predicate holds is left out (and does not count towards maxBytes).
+func (evpool *Pool) listEvidence(prefixKey []byte, maxBytes int64, skip ...func(types.Evidence) bool) ([]types.Evidence, int64, error) {
 	var evidence []types.Evidence
 	var evList kproto.EvidenceData // used for calculating the bytes size
 	var evSize int64
@@ -258,6 +264,11 @@ func (evpool *Pool) listEvidence(prefixKey []byte, maxBytes int64) ([]types.Evid
 		var evp kproto.Evidence
 		if err := evp.Unmarshal(iter.Value()); err != nil {
 			return evidence, totalSize, err
+		}
+		if len(skip) > 0 {
+			if ev, err := types.EvidenceFromProto(&evp); err == nil && skip[0](ev) {
+				continue
+			}
 		}
 
 		evList.Evidence = append(evList.Evidence, evp)
@@ -386,7 +397,9 @@ func (evpool *Pool) CheckEvidence(evList types.EvidenceList) error {
 				return types.NewErrInvalidEvidence(ev, err)
 			}
 
-			if err := evpool.addPendingEvidence(ev); err != nil {
+			if evpool.isPending(ev) {
+				// pending but not trusted by fastCheck (see there): verified again now, stored already
+			} else if err := evpool.addPendingEvidence(ev); err != nil {
 				// Something went wrong with adding the evidence but we already know it is valid
 				// hence we log an error and continue
 				evpool.logger.Error("Can't add evidence to pending list", "err", err, "ev", ev)
@@ -430,6 +443,11 @@ func (evpool *Pool) addPendingEvidence(ev types.Evidence) error {
 // fastCheck leverages the fact that the evidence pool may have already verified the evidence to see if it can
 // quickly conclude that the evidence is already valid.
 func (evpool *Pool) fastCheck(ev types.Evidence) bool {
+	// evidence reported by consensus for the height being decided cannot be verified by anybody yet, and the
+	// lazy pruning may still hold expired evidence: neither may pass as "already verified"
+	if ev.Height() > evpool.State().LastBlockHeight || evpool.isExpired(ev.Height(), ev.Time()) {
+		return false
+	}
 	// for all other evidence the evidence pool just checks if it is already in the pending db
 	return evpool.isPending(ev)
 }
